@@ -18,6 +18,7 @@ of a U1 violation is found by ablation (the option whose removal cures the misma
 if the mismatch is there without any option).
 """
 import copy
+import functools
 import math
 
 from vf import core
@@ -60,6 +61,7 @@ ALL_UNITS = MOLAR + PER_MOLECULE + PER_MASS
 MASS_IN_G = {'g': 1.0, 'kg': 1e-3}          # how many <unit> one gram is (SI prefixes)
 
 
+@functools.lru_cache(maxsize=None)
 def unit_info(u):
     """u is an R-style string ('kcal/g/K').  -> (family, molar base string, mass unit|None)"""
     parts = u.split('/')
@@ -70,6 +72,7 @@ def unit_info(u):
     return 'per_mass', '/'.join([parts[0], 'mol', parts[2]]), parts[1]
 
 
+@functools.lru_cache(maxsize=None)
 def r_si(base):
     return U.R_in(base)
 
@@ -147,6 +150,14 @@ def _required_classes():
     req += ['og:StatMech.%s:S_elements' % g for g in ('get_S', 'get_F', 'get_G')]
     req += ['og:StatMech.%s:%s' % (g, o) for g in ('get_H', 'get_G') for o in ('use_references', 'verbose', 'x')]
     req += ['og:StatMech.get_E:include_ZPE']
+    # every StatMech getter with use_references spelled both ways, on species that carry fitted references
+    req += ['og:StatMech.get_%s:%s' % (q, o) for q in STATMECH8 for o in ('use_references', 'use_references=True')]
+    req += ['og:StatMech.get_%s:%s' % (q, o) for q in STATMECH8 for o in ('S_elements=False', 'verbose=False',
+                                                                          'raise_error')]
+    req += ['statmech:refs_nonzero']
+    for cl in ('Nasa', 'Nasa9', 'Shomate'):
+        req += ['og:%s.get_%s:%s' % (cl, q, o) for q in EMP_OWN for o in ('S_elements=False', 'raise_error',
+                                                                         'use_references=True')]
     for r in ('Reaction', 'ChemkinReaction', 'SurfaceReaction'):
         req += ['og:%s.get_E_act:del_m=%s' % (r, v) for v in ('None', '1', '0', '-1')]
         req += ['og:%s.%s:rev' % (r, g) for g in ('get_H_act', 'get_G_act', 'get_delta_H', 'get_delta_G', 'get_S_act')]
@@ -330,8 +341,8 @@ def draw_opts(rng, applicable, force=None):
 
 
 def gen_case(rng, tier, kind=None, units=None, force_opts=None, **fix):
-    kind = kind or rng.choice(['mode'] * 4 + ['statmech'] * 5 + ['nasa'] * 2 + ['nasa9'] * 2 + ['shomate'] * 3 +
-                              ['reaction'] * 4)
+    kind = kind or rng.choice(['mode'] * 4 + ['statmech'] * 6 + ['nasa'] * 2 + ['nasa9'] * 2 + ['shomate'] * 3 +
+                              ['reaction'] * 3)
     spec = {'kind': kind}
     if kind == 'mode':
         mcls = fix.get('mcls') or rng.choice(MODE_CLASSES)
@@ -371,7 +382,7 @@ def gen_case(rng, tier, kind=None, units=None, force_opts=None, **fix):
         if with_el:
             app['S_elements'] = lambda r: True
         if spec['refs']:
-            app['use_references'] = lambda r: False
+            app['use_references'] = lambda r: r.choice([False, False, True])
         spec['opts'] = draw_opts(rng, app, force_opts)
         spec['units'] = units or draw_units(rng, tier, with_el)
         return spec
@@ -524,6 +535,21 @@ def build_refs(rspec):
     return References(references=refs, descriptor='elements')
 
 
+_SIG = {}
+
+
+def call_filtered(obj, method, kwargs):
+    """obj.method(**kwargs) with the keyword arguments it accepts (all of them if it takes **kwargs)"""
+    import inspect
+    fn = getattr(obj, method)
+    key = (type(obj), method)
+    if key not in _SIG:
+        ps = inspect.signature(fn).parameters
+        _SIG[key] = (any(q.kind == q.VAR_KEYWORD for q in ps.values()), frozenset(ps))
+    varkw, names = _SIG[key]
+    return fn(**kwargs) if varkw else fn(**{k: v for k, v in kwargs.items() if k in names})
+
+
 class Subject:
     """The object under observation plus how its getters are addressed."""
 
@@ -547,6 +573,14 @@ class Subject:
             self.comp = spec['obj'].get('elements')
             self.tags = ['statmech:refs' if refs is not None else 'statmech:norefs',
                          'statmech:misc' if misc else 'statmech:nomisc']
+            self.refs_nonzero = False
+            if refs is not None:
+                try:
+                    self.refs_nonzero = abs(float(refs.get_HoRT(descriptors=dict(self.comp)))) > 1e-6
+                except Exception:                                # noqa
+                    pass
+                if self.refs_nonzero:
+                    self.tags.append('statmech:refs_nonzero')
         elif k in ('nasa', 'nasa9', 'shomate'):
             misc = [build_misc(m) for m in spec['misc']]
             self.obj = S.build(dict(spec['obj'], elements=typed_elements(spec['obj'].get('elements'),
@@ -579,11 +613,12 @@ class Subject:
             self.tags = ['rxn:' + r['flavor']] + (['rxn:ts'] if nts else []) + (['rxn:cov'] if cov else [])
 
     # -- keyword arguments for one getter under an option set
-    def kwargs(self, g, opts):
+    def kwargs(self, g, opts, force=()):
+        """force: swept options are handed to both forms even when the getter does not name them"""
         kw = {}
         blocks = {}
         for o, v in opts.items():
-            if o not in g['opts']:
+            if o not in g['opts'] and o not in force:
                 continue
             if o == 'x':
                 if self.kind == 'reaction':
@@ -602,28 +637,56 @@ class Subject:
     def present(self, g, opts):
         return sorted(o for o in opts if o in g['opts'])
 
-    def sweep_values(self, g, opts):
-        """every single option this getter knows, at a fixed non-default value, that the drawn option set
-        does not already contain (so each case covers each option on each getter once)"""
+    def sweep_values(self, g, opts, rot=0, gi=0):
+        """Every option that this getter, its dimensionless twin or any sibling getter of the class knows,
+        one at a time, at the active value AND at the explicitly spelled default, handed identically to both
+        forms (a wrapper may give an option a meaning, or a default, that its twin does not share).  For
+        reactions the part beyond the getter's own options is rotated over the getters (cost)."""
         k, sp = self.kind, self.spec
-        cand = [('P', 7.3)]
-        if k == 'statmech':
-            cand += [('verbose', True), ('include_ZPE', True)]
-            if any(m['type'] == 'PiecewiseCovEffect' for m in sp['misc']):
-                cand.append(('x', 0.37))
-            if sp.get('refs'):
-                cand.append(('use_references', False))
-        elif k in ('nasa', 'nasa9', 'shomate') and sp['misc']:
-            cand.append(('x', 0.37))
-        elif k == 'reaction':
-            cand += [('rev', True), ('S_elements', True), ('include_ZPE', True)]
-            if self.has_ts:
-                cand.append(('act', True))
-        if k != 'reaction' and self.comp:
-            cand.append(('S_elements', True))
-        out = [(o, v) for o, v in cand if o in g['opts'] and o not in opts]
-        if 'del_m' in g['opts']:
-            out += [('del_m', v) for v in (None, 1, 0, -1) if not ('del_m' in opts and opts['del_m'] == v)]
+        out = []
+
+        def add(o, vals):
+            for v in vals:
+                if not (o in opts and opts[o] == v and type(opts[o]) is type(v)):
+                    out.append((o, v))
+        if k != 'reaction':
+            add('P', [7.3])
+            if any(m['type'] == 'PiecewiseCovEffect' for m in sp.get('misc', [])):
+                add('x', [0.37])
+            add('use_references', [True, False])
+            for o in ('S_elements', 'verbose', 'include_ZPE'):
+                add(o, [True])
+            if gi % 2 == rot % 2 and k != 'mode':        # explicitly spelled defaults: every other getter
+                for o in ('S_elements', 'verbose', 'include_ZPE'):
+                    add(o, [False])
+                add('raise_error', [False])
+                add('raise_warning', [False])
+            return out
+        own = g['opts']
+        if g['name'] == 'get_G_act' or gi % 3 == rot % 3:   # SurfaceReaction.get_G_act names P itself
+            add('P', [7.3])
+        add('S_elements', [True])
+        if 'rev' in own:
+            add('rev', [True])
+        if 'act' in own and self.has_ts:
+            add('act', [True])
+        if 'include_ZPE' in own:
+            add('include_ZPE', [True])
+        if 'del_m' in own:
+            add('del_m', [None, 1, 0, -1])
+        if gi % 3 == rot % 3:
+            add('S_elements', [False])
+            if 'rev' in own:
+                add('rev', [False])
+            if 'act' in own:
+                add('act', [False])
+            if 'include_ZPE' not in own:
+                add('include_ZPE', [True])
+            add('include_ZPE', [False])
+            add('use_references', [True, False])
+            add('verbose', [False])
+            add('raise_error', [False])
+            add('raise_warning', [False])
         return out
 
     def applicable(self, g):
@@ -638,7 +701,7 @@ class Subject:
             a['T'] = T
         if self.kind == 'reaction':
             return getattr(self.obj, g['twin'])(**a)
-        return RG.call_getter(self.obj, g['twin'], a)
+        return call_filtered(self.obj, g['twin'], a)
 
     def dim(self, g, unit, T, kw):
         a = dict(g['fixed'], **kw)
@@ -671,14 +734,14 @@ def call_unit(g, unit):
 class Eval:
     """One (getter, option set, T) evaluation: twin once, dimensional form per unit."""
 
-    def __init__(self, subj, g, T, opts, ctx):
+    def __init__(self, subj, g, T, opts, ctx, force=()):
         import numpy as np
         self.subj, self.g, self.ctx = subj, g, ctx
         self.T = T
         self.Tarr = None if T is None else (np.array(T, dtype=float) if isinstance(T, list) else T)
         self.Tval = 298.15 if T is None else self.Tarr          # documented default
         self.opts = opts
-        self.kw = subj.kwargs(g, opts)
+        self.kw = subj.kwargs(g, opts, force)
         self.twin_exc = None
         self.w = None
         try:
@@ -744,8 +807,17 @@ def blame(subj, g, T, opts, unit, ctx):
     return '+'.join(culprits) if culprits else '+'.join(present)
 
 
+ACTIVE = {'S_elements': True, 'use_references': False, 'verbose': True, 'include_ZPE': True, 'rev': True,
+          'act': True}
+
+
 def og_label(subj, g, o, v):
-    return 'og:%s.%s:%s' % (subj.cls, g['name'], ('del_m=%s' % v) if o == 'del_m' else o)
+    """option at its active (non-default) value: 'opt'; explicitly spelled default / del_m: 'opt=value'"""
+    if o == 'del_m' or (o in ACTIVE and v != ACTIVE[o]):
+        o = '%s=%s' % (o, v)
+    if o.startswith('use_references') and subj.kind == 'statmech' and not subj.refs_nonzero:
+        o += '(no offset)'                   # counted only on species that carry a fitted, non-zero offset
+    return 'og:%s.%s:%s' % (subj.cls, g['name'], o)
 
 
 def r_ok(c, base):
@@ -865,24 +937,40 @@ def run_case(spec, ctx):
                     ctx.max_err['U2_si'] = e_si
             else:
                 ctx.fail('U2', m, err=e, err_si=e_si, u1=u1, u2=u2, got1=d1, got2=d2, options=opts)
-        # ---- option sweep: every single option of this getter that the drawn set lacks, one unit each
+        # ---- option sweep: every option the class knows, one at a time, identically to both forms
         if units and 'none' not in first_fail_label.values():
-            for o, v in subj.sweep_values(g, opts):
-                evs = Eval(subj, g, T, dict(opts, **{o: v}), ctx)
-                if evs.twin_exc is not None or not evs.finite:
-                    x['twin_raised_sweep'] = x.get('twin_raised_sweep', 0) + 1
-                    continue
+            rot = int(round(100 * (T if isinstance(T, (int, float)) else (T[0] if T else 0)))) % 6
+            for o, v in subj.sweep_values(g, opts, rot, subj.getters.index(g)):
+                evs = Eval(subj, g, T, dict(opts, **{o: v}), ctx, force=(o,))
                 u = units[n_sweep % len(units)]
                 n_sweep += 1
                 fam, fp, fs = factor(u, subj.comp)
                 if fam in first_fail_label:
                     continue                               # this family already fails with the drawn options
-                ctx.cls(og_label(subj, g, o, v), 'opt:' + o)
+                label = og_label(subj, g, o, v)
                 m = dict(base_mech, unit_family=fam, option=o, clause='U1')
+                if evs.twin_exc is not None:
+                    # the twin refuses the option: the dimensional form must refuse it as well
+                    st, d = evs.dim(u)
+                    if st == 'exc':
+                        ctx.held('U1')
+                        ctx.cls(label, 'opt:' + o)
+                        x.setdefault('both_refuse', {})
+                        key = '%s.%s:%s=%s:%s' % (subj.cls, g['name'], o, v, type(d).__name__)
+                        x['both_refuse'][key] = x['both_refuse'].get(key, 0) + 1
+                    else:
+                        ctx.fail('U1', dict(m, exc='only_twin_refuses:' + type(evs.twin_exc).__name__),
+                                 message=str(evs.twin_exc)[:300], got=d, unit=call_unit(g, u), options=evs.opts,
+                                 swept=[o, v])
+                    continue
+                if not evs.finite:
+                    x['twin_nonfinite_sweep'] = x.get('twin_nonfinite_sweep', 0) + 1
+                    continue
+                ctx.cls(label, 'opt:' + o)
                 st, d = evs.dim(u)
                 if st == 'exc':
                     ctx.fail('U1', dict(m, exc=type(d).__name__), message=str(d)[:300], where=core._tb_where(d),
-                             unit=call_unit(g, u), options=evs.opts)
+                             unit=call_unit(g, u), options=evs.opts, swept=[o, v])
                     continue
                 want = evs.want(fp)
                 e = rel_err(ctx, d, want)
